@@ -39,7 +39,7 @@ theorem binNodeY_uu_forced (env : Env) (kf : UK) (hkf : kf = .int ∨ kf = .rune
   have hz1 := zeroConstY_untyped c1 kb q h1ty h1rv
   have hfold : ∀ nty : Ty, nty.untyped = true → nty.isInt = true →
       foldBinY F0 a nty (.c (.int p)) (.c (.int q)) = .ok (.c (.int (iop a p q))) :=
-    fun nty hu hi => foldBinY_const a ha nty hu hi p q hz
+    fun nty _ _ => foldBinY_const a ha nty p q hz
   obtain ⟨rv0, ty0, s0, i0, f0⟩ := c0
   obtain ⟨rv1, ty1, s1, i1, f1⟩ := c1
   simp only at h0ty h0rv h1ty h1rv
@@ -63,7 +63,7 @@ theorem binNodeY_uu' (env : Env) (a : Act) (ha : isArith a = true) (c0 c1 : NS)
   have hz1 := zeroConstY_untyped c1 kb q h1ty h1rv
   have hfold : ∀ nty : Ty, nty.untyped = true → nty.isInt = true →
       foldBinY F0 a nty (.c (.int p)) (.c (.int q)) = .ok (.c (.int (iop a p q))) :=
-    fun nty hu hi => foldBinY_const a ha nty hu hi p q hz
+    fun nty _ _ => foldBinY_const a ha nty p q hz
   obtain ⟨rv0, ty0, s0, i0, f0⟩ := c0
   obtain ⟨rv1, ty1, s1, i1, f1⟩ := c1
   simp only at h0ty h0rv h1ty h1rv
